@@ -327,6 +327,29 @@ class IntronsLeg(object):
                 return Failure("create_introns after delete(%r) on the same handle still reflects the old exon set: %r vs %r"
                                % (victim["attrs"]["ID"][0], sorted(x[:3] for x in got2), sorted(x[:3] for x in want2)),
                                sig={"kind": "introns-stale-after-delete"})
+            # the deleted id comes back later as an exon of ANOTHER transcript: it belongs to that one only
+            others = [t for t in txs if victim["attrs"]["Parent"][0] != t["id"] and t["exons"]]
+            if others:
+                from gffutils.feature import feature_from_line
+
+                t2 = others[0]
+                last = max(e["end"] for e in t2["exons"])
+                ns, ne = last + 5, last + 15
+                vid = victim["attrs"]["ID"][0]
+                seqid2, strand2 = t2["exons"][0]["seqid"], t2["exons"][0]["strand"]
+                db.update([feature_from_line("\t".join([seqid2, "src", "exon", str(ns), str(ne), ".", strand2, ".",
+                                                        "ID=%s;Parent=%s;exon_number=99" % (vid, t2["id"])]))], make_backup=False)
+                t2["exons"] = sorted(t2["exons"] + [{"seqid": seqid2, "start": ns, "end": ne, "ft": "exon", "strand": strand2,
+                                                     "attrs": {"ID": [vid], "Parent": [t2["id"]], "exon_number": ["99"]}}],
+                                     key=lambda x: x["start"])
+                want3 = []
+                for t in txs:
+                    want3 += [_exp_tuple(x) for x in ref_inter(t["exons"], "intron", case["merge_attributes"], case["numeric_sort"], None)]
+                got3 = [_as_tuple(f) for f in db.create_introns(**kw)]
+                if sorted(map(key, got3)) != sorted(map(key, want3)):
+                    return Failure("create_introns after the deleted id %r was re-added under transcript %r: %r, expected %r"
+                                   % (vid, t2["id"], sorted(x[:3] for x in got3), sorted(x[:3] for x in want3)),
+                                   sig={"kind": "introns-after-readd"})
         return None
 
 
